@@ -52,6 +52,9 @@ func (g *sgen) scalar() *sx.Node {
 	case 3:
 		return dBool()
 	case 4:
+		if gp.edgeInts && r.Chance(20) {
+			return dEnumInt([]int64{1, math.MaxInt64, math.MinInt64, 1<<53 + 1}, nil)
+		}
 		return dEnumInt([]int64{1, 2, int64(3 + r.Intn(5))}, nil)
 	case 5:
 		if r.Chance(25) {
@@ -121,22 +124,55 @@ func (g *sgen) oneof(depth int) *sx.Node {
 	field := "kind"
 	n := 1 + r.Intn(3)
 	var ms []memberD
+	var ikeys []int64
+	var skeys []string
+	for i := 0; i < n; i++ {
+		ikeys, skeys = append(ikeys, int64(i+1)), append(skeys, string(rune('A'+i)))
+	}
+	if gp.oneofRich && gp.edgeInts && intKeys && r.Chance(15) {
+		ikeys[n-1] = pick(r, []int64{math.MaxInt64, math.MinInt64, 1 << 53, -1, 0})
+	}
 	for i := 0; i < n; i++ {
 		var t *sx.Node
 		if !inlined && r.Bool() && len(g.objIDs) > 0 {
 			t = dRef(pick(r, g.objIDs), "")
 		} else {
 			props := g.props(depth, 1+r.Intn(2), []string{"p", "q", "w"})
+			if gp.oneofRich && r.Chance(45) {
+				// an any-typed member property: the member's data-mode compatibility pre-check sees `any` data
+				props = append(props, propD{name: "z", required: r.Chance(60), t: pick(r, []*sx.Node{dAny(), dAny(), dList(dAny(), nil, nil), dMap(dString(nil, nil, nil), dAny(), nil, nil)})})
+			}
 			if inlined {
 				dt := dString(nil, nil, nil)
 				if intKeys {
 					dt = dInt(nil, nil, nil)
 				}
+				if gp.oneofRich {
+					// every property type the constructor admits for an inlined discriminator (same reflected kind as the key)
+					switch r.Intn(5) {
+					case 0:
+						if intKeys {
+							dt = dEnumInt(ikeys, nil)
+						} else {
+							dt = dEnumStr(nil, skeys)
+						}
+					case 1:
+						if intKeys {
+							dt = dInt(ip(math.MinInt64), ip(math.MaxInt64), nil)
+						} else {
+							dt = dEnumStr(sp("MyStr"), skeys) // a NAMED string type
+						}
+					case 2:
+						if !intKeys {
+							dt = dString(ip(1), ip(8), nil)
+						}
+					}
+				}
 				props = append(props, propD{name: field, t: dt, required: r.Bool()})
 			}
 			t = dObject(fmt.Sprintf("mem%d", i), false, props...)
 		}
-		ms = append(ms, memberD{ikey: int64(i + 1), skey: string(rune('A' + i)), t: t})
+		ms = append(ms, memberD{ikey: ikeys[i], skey: skeys[i], t: t})
 	}
 	return dOneOf(intKeys, field, inlined, ms...)
 }
@@ -282,14 +318,28 @@ func rawFor(r *Rng, t *sx.Node, sc scopeCtx, depth int) *sx.Node {
 		case "pattern":
 			return vS(pick(r, []string{"a+", "^x$", "[0-9]*"}))
 		case "any":
+			if gp.anyDirty && r.Chance(30) {
+				return anyValue(r, 2, 4+r.Intn(2)) // a list or a map at the top
+			}
+			if gp.anyDeep && r.Chance(60) {
+				return anyValue(r, 2, -1)
+			}
 			return pick(r, []*sx.Node{vI("i64", 3), vU("u64", 3), vS("s"), vF("f64", 1.5), vB(true), vSl(tAnySlice, vI("i64", 1), vI("i64", 2)),
 				vM(tAnyMap, vS("k"), vI("u64", 1)), vM(tStrMap, vS("k"), vSl(tAnySlice, vS("x")))})
 		}
 	}
 	switch t.Head() {
 	case "int":
+		if gp.unitEdges && !isNone(t.List[3]) && r.Chance(35) {
+			return vS(unitString(r, unitsFromSx(t.List[3])))
+		}
 		if !isNone(t.List[3]) && r.Chance(50) {
 			return vS(pick(r, []string{"1m", "90", "2 m 5 s", "1kB", "1 kilobyte"}))
+		}
+		if gp.edgeInts && r.Chance(10) {
+			if z, ok := edgeInt(r, optI(t.List[1], math.MinInt64), optI(t.List[2], math.MaxInt64)); ok {
+				return edgeRepr(r, z)
+			}
 		}
 		lo, hi := optI(t.List[1], -20), optI(t.List[2], 60)
 		if hi < lo {
@@ -305,6 +355,13 @@ func rawFor(r *Rng, t *sx.Node, sc scopeCtx, depth int) *sx.Node {
 		}
 		return pickRepr(r, lo+int64(r.Intn(int(hi-lo+1))))
 	case "float":
+		if gp.unitEdges && !isNone(t.List[3]) && r.Chance(35) {
+			u := unitsFromSx(t.List[3])
+			if r.Chance(30) {
+				return vS(genWellFormedFloat(r, u))
+			}
+			return vS(unitString(r, u))
+		}
 		if !isNone(t.List[3]) && r.Chance(50) {
 			return vS(pick(r, []string{"1m", "1.5", "1m0.5s", "2kB"}))
 		}
@@ -344,6 +401,9 @@ func rawFor(r *Rng, t *sx.Node, sc scopeCtx, depth int) *sx.Node {
 		n := lo
 		if hi > lo {
 			n += int64(r.Intn(int(hi - lo + 1)))
+		}
+		if gp.utf8Strings && n >= 1 && r.Chance(25) {
+			return vS(utf8String(r, n)) // n RUNES: the byte length may pass a declared maximum
 		}
 		if r.Chance(15) && n >= 1 && n <= 3 {
 			return vI("i64", int64(math.Pow10(int(n)-1)))
@@ -528,7 +588,7 @@ func mutate(r *Rng, v *sx.Node) *sx.Node {
 func init() {
 	families["structured"] = &Family{
 		Label: "schema",
-		Gen: func(r *Rng, tier string, emit func(*sx.Node)) {
+		Gen: withProfile(genProfile{edgeInts: true, utf8Strings: true, unitEdges: true, anyDeep: true}, func(r *Rng, tier string, emit func(*sx.Node)) {
 			n := 350
 			if tier == "thorough" {
 				n = 6000
@@ -556,7 +616,7 @@ func init() {
 				}
 				emit(schCase(nil, s, ops...))
 			}
-		},
+		}),
 		Run: runSchemaCase,
 	}
 }
